@@ -438,8 +438,10 @@ theorem bridge_instantiate_sound_uncond (O : Oracles) (c : ClassDef) (ord : List
 
 Every re-validating entry point (deepcopy, shallow_clone_with_overrides, from_other_class, cast_to,
 serialize-then-deserialize) feeds stored values back into the field.  On the fragment `idemFrag` (Lemmas/Idempotent.lean:
-every declaration kind except Set / Map / AnyOf / inline StructureReference - for these it is not proved, not refuted)
-the stored value is accepted again and stored unchanged. -/
+every declaration kind except Map / AnyOf / inline StructureReference) the stored value is accepted again and stored
+unchanged.  For AnyOf the statement is false as it stands (`anyOf_restores_differently`: the stored value can match an
+EARLIER option that converts it - the result is `==` but not identical); for Map and inline StructureReference it is
+not proved. -/
 
 theorem validate_idempotent_partial (O : Oracles) (f : FieldDecl) (v w : PyVal) (hf : idemFrag f = true)
     (h : validate O f v = .ok w) : validate O f w = .ok w := by
@@ -469,6 +471,20 @@ theorem idempotent_example :
                                   | _, _ => false)
                     | .error _ => false)
         | .error _ => false) = true := by
+  decide
+
+/-- why AnyOf is excluded: AnyOf[Array(items=[Float, Enum[True]]), Array(items=[Integer, Boolean])] given [1, 'True']
+    stores [1, True] (second option); that value matches the FIRST option, which stores [1.0, True] - equal under `==`,
+    not identical (kernel-checked; the real code agrees: deepcopy returns [1.0, True]) -/
+theorem anyOf_restores_differently :
+    let O : Oracles := { reMatch := fun _ _ => true }
+    let f : FieldDecl := .anyOf [.seqPos .list [.float {}, .enumLit [.bool true]] true {},
+                                 .seqPos .list [.integer {}, .boolean] true {}]
+    (match validate O f (.list [.int 1, .str "True"]) with
+      | .ok (.list [.int 1, .bool true]) => true | _ => false) = true
+    ∧ (match validate O f (.list [.int 1, .bool true]) with
+      | .ok (.list [.float q, .bool true]) => q.num == 1 && q.den == 1 | _ => false) = true
+    ∧ PyVal.pyEq (.list [.int 1, .bool true]) (.list [.float ⟨1, 1⟩, .bool true]) = true := by
   decide
 
 /-! ### OneOf / AllOf keep the value as it was given (fixed in /repo 89fd84a)
